@@ -293,6 +293,63 @@ pub fn cont_grid(fam: Family, s: Scalar) -> Vec<DistSpec> {
     ps.into_iter().map(|p| DistSpec::f(fam, s, &p)).collect()
 }
 
+/// A generic interior point of E with no round value in it (moderate magnitudes).
+fn generic_base(fam: Family) -> Option<Vec<f64>> {
+    Some(match fam {
+        Family::Normal | Family::Cauchy | Family::Gumbel => vec![-2.3, 3.1],
+        Family::LogNormal => vec![0.7, 0.6],
+        Family::LogNormalMeanCv => vec![2.3, 0.6],
+        Family::Exp => vec![3.1],
+        Family::Gamma => vec![2.3, 3.1],
+        Family::ChiSquared | Family::StudentT => vec![4.6],
+        Family::FisherF => vec![4.6, 7.3],
+        Family::Beta => vec![2.3, 3.1],
+        Family::Pert | Family::PertMean => vec![-2.3, 3.1, 0.7, 4.6],
+        Family::Triangular => vec![-2.3, 3.1, 0.7],
+        Family::Pareto | Family::Weibull => vec![3.1, 2.3],
+        Family::Frechet => vec![-2.3, 3.1, 2.3],
+        Family::SkewNormal => vec![-2.3, 3.1, 1.7],
+        Family::InverseGaussian => vec![2.3, 3.1],
+        Family::Nig => vec![3.1, 1.7],
+        Family::Poisson => vec![7.3],
+        Family::Zeta => vec![2.3],
+        Family::Zipf => vec![1000.0, 2.3],
+        _ => return None,
+    })
+}
+
+/// Special-value cross: every parameter of a generic (non-round) point replaced in turn by
+/// a value at which implementations tend to branch -- 1, 2, 1/2, 3 -- and by neighbours of 1
+/// and 2 at relative distance 2^-12 (inside any "close enough to 1" tolerance of the order of
+/// sqrt(eps_f32), where the law must still be that of the actual parameter).  The other
+/// parameters stay generic: a shortcut taken at shape == 1 that is only right when scale == 1
+/// as well cannot hide behind a grid of round values.  Only points the constructor accepts
+/// are used (callers build them); the first parameter of Zipf (n) is not varied.
+pub fn special_cross(fam: Family, s: Scalar) -> Vec<DistSpec> {
+    let Some(base) = generic_base(fam) else { return vec![] };
+    let d = 2.0_f64.powi(-12);
+    let specials = [1.0, 2.0, 0.5, 3.0, 1.0 + d, 1.0 - d, 2.0 + 2.0 * d, 2.0 - 2.0 * d];
+    let mut v = Vec::new();
+    for i in 0..base.len() {
+        if fam == Family::Zipf && i == 0 {
+            continue;
+        }
+        for &x in &specials {
+            let mut p = base.clone();
+            p[i] = x;
+            // NIG needs |beta| < alpha; Zeta needs s > 1
+            if fam == Family::Nig && p[1].abs() >= 0.99 * p[0] {
+                continue;
+            }
+            if fam == Family::Zeta && !(p[0] > 1.0) {
+                continue;
+            }
+            v.push(DistSpec::f(fam, s, &p));
+        }
+    }
+    v
+}
+
 /// Random interior point of E for a continuous family.
 pub fn cont_random(fam: Family, s: Scalar, r: &mut SimRng) -> DistSpec {
     let f32_ = s == Scalar::F32;
@@ -808,6 +865,10 @@ pub fn regime_tags(spec: &DistSpec) -> Vec<String> {
         Family::Binomial if spec.n.len() == 1 => {
             if spec.n[0] >= 1u64 << 63 {
                 t.push("binomial:n>=2^63".into());
+            }
+            // BTPE works in f64: results beyond 2^53 are multiples of the f64 spacing
+            if !spec.p.is_empty() && spec.n[0] as f64 * spec.p[0].min(1.0 - spec.p[0]) >= 9007199254740992.0 {
+                t.push("binomial:mean>=2^53".into());
             }
         }
         Family::Hypergeometric if spec.n.len() == 3 => {
